@@ -10,7 +10,7 @@ import (
 // C19 — access controls and enablement are enforced on every path.
 
 var c19Mutating = []string{"addfact", "remfact", "addrule", "remrule", "enable", "setparents", "clear", "event-mutating"}
-var c19Revealing = []string{"getfact", "search", "getrule", "searchrules", "listrules", "statesize", "query", "event"}
+var c19Revealing = []string{"getfact", "search", "getrule", "searchrules", "listrules", "statesize", "query", "event", "event-trigger"}
 var c19States = []string{"none", "write", "read", "both", "readonly", "disabled"}
 var c19Callers = []string{"nokey", "wrongkey", "rightkey"}
 
@@ -95,6 +95,10 @@ func c19Op(kind, caller string, i int) h.Op {
 		op = h.Op{K: "query", J: map[string]interface{}{"secret": "?s"}}
 	case "event":
 		op = h.Op{K: "event", J: map[string]interface{}{"ping": "a"}}
+	case "event-trigger":
+		// an event that names the rule to run (the form a cron tick takes);
+		// it also carries what the rule's `when` asks for
+		op = h.Op{K: "event", J: map[string]interface{}{"trigger!": "r1", "ping": "a"}}
 	}
 	op.Loc = "L"
 	switch caller {
